@@ -29,7 +29,7 @@ Definition C08_full : Prop :=
 Definition Known_C08_child (v : variant) (capture last : bool) (st : stage) : bool :=
   negb (clean v capture last (s_redirs st)).
 Definition Known_C08_shell (v : variant) (fail_at : nat -> bool) (pl : plan) : bool :=
-  is_single_builtin pl
+  runs_in_shell pl
   || (capture_fails fail_at pl && negb (length (p_stages pl) =? 1) && negb (v_capfail v)).
 
 Lemma existsb_split : forall (A : Type) (f g : A -> bool) (c1 c2 : bool) l,
@@ -85,7 +85,7 @@ Proof.
 Qed.
 
 Theorem C08_children_variants : forall v fail_at openable pl sh i0 o0 e0,
-  std_ok (tab sh) i0 o0 e0 -> is_single_builtin pl = false ->
+  std_ok (tab sh) i0 o0 e0 -> runs_in_shell pl = false ->
   let r := run_pipeline v fail_at openable pl sh in
   res_error r = false ->
   kids_ok (fun idx st k =>
@@ -105,14 +105,14 @@ Qed.
    combination of here-strings, `<`, redirections, builtin / not-found stages, capture on or off, and EVERY
    failure point of the up-front loop and of the capture pipes, the shell's table is what it was *)
 Theorem C08_shell : forall fail_at openable pl sh,
-  is_single_builtin pl = false ->
+  runs_in_shell pl = false ->
   let r := run_pipeline v0 fail_at openable pl sh in
   teq_tab (res_shell r) (tab sh) /\ (res_error r = false -> length (res_kids r) = length (p_stages pl)).
 Proof.
   intros fail_at openable pl sh NB. apply shell_restored; auto.
 Qed.
 Check C08_shell : forall fail_at openable pl sh,
-  is_single_builtin pl = false ->
+  runs_in_shell pl = false ->
   let r := run_pipeline v0 fail_at openable pl sh in
   teq_tab (res_shell r) (tab sh) /\ (res_error r = false -> length (res_kids r) = length (p_stages pl)).
 
@@ -120,7 +120,7 @@ Check C08_shell : forall fail_at openable pl sh,
    close-on-exec: no pipe end of another stage, no capture pipe, no redirect target, no dup()ed copy,
    no here-string pipe -- no class excluded *)
 Theorem C08_children : forall fail_at openable pl sh i0 o0 e0,
-  std_ok (tab sh) i0 o0 e0 -> is_single_builtin pl = false ->
+  std_ok (tab sh) i0 o0 e0 -> runs_in_shell pl = false ->
   let r := run_pipeline v0 fail_at openable pl sh in
   res_error r = false ->
   kids_ok (fun _ _ k => kid_clean (tab sh) k) 0 (p_stages pl) (res_kids r).
@@ -130,7 +130,7 @@ Proof.
   cbn beta. intros idx st k H. apply H. apply Known_C08_child_v0.
 Qed.
 Check C08_children : forall fail_at openable pl sh i0 o0 e0,
-  std_ok (tab sh) i0 o0 e0 -> is_single_builtin pl = false ->
+  std_ok (tab sh) i0 o0 e0 -> runs_in_shell pl = false ->
   let r := run_pipeline v0 fail_at openable pl sh in
   res_error r = false ->
   kids_ok (fun _ _ k => kid_clean (tab sh) k) 0 (p_stages pl) (res_kids r).
@@ -138,36 +138,46 @@ Check C08_children : forall fail_at openable pl sh i0 o0 e0,
 (* a builtin that runs in the shell itself, captured or not, with ANY redirection list, unopenable targets
    included: the shell's table is what it was (since /repo c05c052 no list is excluded) *)
 Theorem C08_builtin : forall fail_at openable pl sh st o1 c1 o2 c2,
-  p_stages pl = [st] -> s_kind st = KBuiltin ->
+  p_stages pl = [st] -> s_kind st = KBuiltin -> (p_capture pl = false \/ s_redirs st = []) ->
   lookup (tab sh) 1 = Some (o1, c1) -> lookup (tab sh) 2 = Some (o2, c2) ->
   teq_tab (res_shell (run_pipeline v0 fail_at openable pl sh)) (tab sh).
 Proof. intros. eapply (builtin_restored v0); eauto. Qed.
 Check C08_builtin : forall fail_at openable pl sh st o1 c1 o2 c2,
-  p_stages pl = [st] -> s_kind st = KBuiltin ->
+  p_stages pl = [st] -> s_kind st = KBuiltin -> (p_capture pl = false \/ s_redirs st = []) ->
   lookup (tab sh) 1 = Some (o1, c1) -> lookup (tab sh) 2 = Some (o2, c2) ->
   teq_tab (res_shell (run_pipeline v0 fail_at openable pl sh)) (tab sh).
+
+(* C08_builtin quantifies over the plan, hence over s_prints : list (stream, text-is-empty): the descriptor obtained for a print
+   (dup(1) / dup(2) or the redirection target) is owned and closed on EVERY path of print_stdout / print_stderr, for every text,
+   the empty one included (`alias` while no alias is defined) *)
+Example C08_builtin_empty_text :
+  let run prints rs := tab (res_shell (run_pipeline v0 nf yes (mkplan [mks FNone rs KBuiltin prints] false) sh0)) in
+  map (fun t => map (obj_at t) [3; 4; 5]) [run [(true, true)] []; run [(true, true)] [mkr F1 false (TFile 5)];
+                                           run [(true, true); (false, true)] [mkr F2 false TAmp1; mkr F1 true (TFile 5)]]
+  = [[None; None; None]; [None; None; None]; [None; None; None]].
+Proof. vm_compute. reflexivity. Qed.
 
 (* the arm for a target that cannot be opened, with the output captured or not, as its own case: the command
    fails, nothing is printed, and the shell's table -- capture pipes included -- is what it was.  (The cleanup of the
    capture pipes is decided by cl.is_single_and_builtin() in run_pipeline, not by the pid-like value
    run_single_program returns on this arm; the model follows the code in that.) *)
 Theorem C08_builtin_unopenable : forall fail_at openable pl sh st o1 c1 o2 c2,
-  p_stages pl = [st] -> s_kind st = KBuiltin ->
+  p_stages pl = [st] -> s_kind st = KBuiltin -> p_capture pl = false ->
   allopen openable (s_redirs st) = false ->
   lookup (tab sh) 1 = Some (o1, c1) -> lookup (tab sh) 2 = Some (o2, c2) ->
   let r := run_pipeline v0 fail_at openable pl sh in
   res_error r = true /\ res_kids r = [] /\ res_sinks r = [] /\ teq_tab (res_shell r) (tab sh).
 Proof.
-  intros fail_at openable pl sh st o1 c1 o2 c2 ES EK AO H1 H2. cbv zeta.
-  destruct (builtin_unopenable_error v0 fail_at openable pl sh st eq_refl ES EK AO) as (A & B & C).
+  intros fail_at openable pl sh st o1 c1 o2 c2 ES EK EC AO H1 H2. cbv zeta.
+  destruct (builtin_unopenable_error v0 fail_at openable pl sh st eq_refl ES EK EC AO) as (A & B & C).
   repeat split; auto. eapply C08_builtin; eauto.
 Qed.
+(* the same list with the output CAPTURED is a one-stage pipeline since 9dba15b: the forked child fails on the target and exits 1,
+   the shell closes the capture pipes in the parent epilogue (C08_shell) *)
 Example C08_captured_builtin_unopenable :
-  let r := run_pipeline v0 nf (fun p => negb (Nat.eqb p 5)) (mkplan [mks FNone [mkr F1 false (TFile 5)] KBuiltin [true]] true) sh0 in
-  res_error r = true /\ map (obj_at (tab (res_shell r))) [3; 4; 5; 6] = [None; None; None; None] /\
-  rev (tr (res_shell r)) = [EPipe 3 4; EPipe 5 6; EOpen 5 MTrunc None;
-                            EClose 3 true; EClose 4 true; EClose 5 true; EClose 6 true].
-Proof. vm_compute. repeat split; reflexivity. Qed.
+  let r := run_pipeline v0 nf (fun p => negb (Nat.eqb p 5)) (mkplan [mks FNone [mkr F1 false (TFile 5)] KBuiltin [(true, false)]] true) sh0 in
+  map k_out (res_kids r) = [OExit 1] /\ map (obj_at (tab (res_shell r))) [3; 4; 5; 6] = [None; None; None; None].
+Proof. vm_compute. split; reflexivity. Qed.
 
 (* descriptor exhaustion in the up-front loop: error, nothing forked, everything released
    (the capture pipes' failure points are covered by C08_shell: table restored) *)
@@ -185,7 +195,7 @@ Check C08_emfile : forall v fail_at openable pl sh k,
    the already created stdout capture pipe is closed again (core.rs: if let Some(fds) = fds_capture_stdout) --
    the result is an error, nothing is forked, the stage pipes and the first capture pipe are released *)
 Theorem C08_emfile_capture : forall fail_at openable pl sh,
-  is_single_builtin pl = false -> capture_fails fail_at pl = true ->
+  runs_in_shell pl = false -> capture_fails fail_at pl = true ->
   let r := run_pipeline v0 fail_at openable pl sh in
   res_error r = true /\ res_kids r = [] /\ teq_tab (res_shell r) (tab sh).
 Proof.
@@ -194,7 +204,7 @@ Proof.
   split; [exact A|]. split; [exact B|]. apply (proj1 (C08_shell fail_at openable pl sh NB)).
 Qed.
 Check C08_emfile_capture : forall fail_at openable pl sh,
-  is_single_builtin pl = false -> capture_fails fail_at pl = true ->
+  runs_in_shell pl = false -> capture_fails fail_at pl = true ->
   let r := run_pipeline v0 fail_at openable pl sh in
   res_error r = true /\ res_kids r = [] /\ teq_tab (res_shell r) (tab sh).
 
@@ -215,8 +225,8 @@ Proof. vm_compute. repeat split; reflexivity. Qed.
 Theorem C08_holds : C08_full.
 Proof.
   intros fail_at openable pl sh i0 o0 e0 SO. unfold run_clean. cbv zeta.
-  destruct (is_single_builtin pl) eqn:SB.
-  - destruct (single_builtin_shape pl SB) as (st & ES & EK).
+  destruct (runs_in_shell pl) eqn:SB.
+  - destruct (runs_in_shell_shape pl SB) as (st & ES & EK & INS).
     destruct SO as (_ & S1 & S2). split.
     + eapply (builtin_restored v0); eauto.
     + intros _. rewrite (builtin_no_kids v0 fail_at openable pl sh SB). constructor.
@@ -229,9 +239,9 @@ Check C08_holds : forall fail_at openable pl sh i0 o0 e0,
 
 Definition kid0 (r : result) := hd (mkkid 0 sh0 OExec) (res_kids r).
 Definition p_dup := mkplan [mks FNone [mkr F2 false TAmp1] KExt []] false.
-Definition p_bcap := mkplan [mks FNone [] KBuiltin [true]] true.
+Definition p_bcap := mkplan [mks FNone [] KBuiltin [(true, false)]] true.
 Definition p_capredir := mkplan [mks FNone [mkr F1 false (TFile 5)] KExt []] true.
-Definition p_look := mkplan [mks FNone [mkr F1 false TAmp2; mkr F1 false (TFile 5)] KBuiltin [true]] false.
+Definition p_look := mkplan [mks FNone [mkr F1 false TAmp2; mkr F1 false (TFile 5)] KBuiltin [(true, false)]] false.
 
 (* ---------------- regression: what each repair bought (the code BEFORE the commit leaks) ---------------- *)
 Definition v_before_8dc92a8 := mkv false true true true true true false.
@@ -240,7 +250,7 @@ Definition v_before_219c117 := mkv true true false true true true false.
 Definition v_before_3c1f8de := mkv true true true false true true false.
 Definition v_before_d4ac685 := mkv true true true true false true false.
 Definition v_before_c05c052 := mkv true true true true true false false.
-Definition bunop_plan := mkplan [mks FNone [mkr F1 false (TFile 5)] KBuiltin [true]] false.
+Definition bunop_plan := mkplan [mks FNone [mkr F1 false (TFile 5)] KBuiltin [(true, false)]] false.
 Example C08_regression :
   (* prog 2>&1 : the dup()ed descriptor 3 stayed open in prog *)
   lookup (tab (k_proc (kid0 (run_pipeline v_before_8dc92a8 nf yes p_dup sh0)))) 3 = Some (OInh 1, false) /\
